@@ -46,6 +46,9 @@ func c17Gen(seed uint64, tier string) any {
 		IdentityDetail: r.Bool(), IdentitySpan: r.Bool(),
 	}
 	sc.StreamFail = r.Chance(1, 8)
+	if r.Chance(1, 3) {
+		sc.Acting.StreamCustom = true
+	}
 	g := NewProgGen(r.Fork(), o)
 	n := r.Range(2, 6)
 	for i := 0; i < n; i++ {
@@ -55,6 +58,15 @@ func c17Gen(seed uint64, tier string) any {
 				"i=0; s=0; while i<3 { s = s + XX5; i=i+1 }; s", "func ff(p) { return p + XX3 }; ff(1) + ff(2)", "&cv = XX7 + 1; cv + cv", "[XX1, XX2, XX3].sum()",
 				"`a{XX4}b{XX4}`", "XX2 + XX2 * XX2", "XX9 ? XX1 : XX2", "x = XX6; x", "(XX3)d(XX2)", "XX12+1", "1+XX0", "xs=[1,2,3]; xs[XX1]",
 			})
+		}
+		if sc.Acting.StreamCustom && r.Chance(1, 2) {
+			src = Pick(r, []string{
+				"RR3 + RR4", "RR3 * 2 + RR5 + 1", "func ff(n0) { return RR5 + n0 }; ff(1) + ff(2) + RR1", "&cv = RR2 + 1; cv + RR7", "i=0; s=0; while i<3 { s = s + RR6; i=i+1 }; s + RR2",
+				"RR9", "1 + RR8", "RR1 + RR2 + RR3 + RR4", "`{RR4}-{RR5}`", "x = RR3; y = RR4; x * 10 + y", "RR12 - RR2 * RR3", "RR7 ? RR1 : RR2",
+			})
+			if sc.Acting.Custom && r.Bool() {
+				src += " + XX3"
+			}
 		}
 		if sc.StreamFail && r.Chance(1, 3) {
 			src = Pick(r, []string{"QQ7", "1 + QQ2", "x = 3; QQ", g.Int() + " + QQ1"})
@@ -78,7 +90,8 @@ type c17World struct {
 	out        []*Outcome
 	host       *Host
 	customOps  []int64 // per command: executed dice.custom instructions
-	calls      []int   // per command: handler invocations
+	calls      []int   // per command: handler invocations (all acting syntaxes)
+	planCalls  []int   // per command: invocations of the regex operator (the one with a behaviour plan)
 	planAt     []int
 	copyBroken string
 }
@@ -117,6 +130,7 @@ func c17Run(sc *C17Scenario, spec HostSpec, m *Meter, res *RunResult, mutateRetu
 			return false
 		}
 		before := len(w.host.Calls)
+		planBefore := w.host.handlerN
 		w.planAt = append(w.planAt, w.host.handlerN)
 		o := DoCmd(vm, c)
 		m.OnStep = nil
@@ -139,6 +153,7 @@ func c17Run(sc *C17Scenario, spec HostSpec, m *Meter, res *RunResult, mutateRetu
 		w.out = append(w.out, o)
 		w.customOps = append(w.customOps, customOps)
 		w.calls = append(w.calls, len(w.host.Calls)-before)
+		w.planCalls = append(w.planCalls, w.host.handlerN-planBefore)
 	}
 	return w
 }
@@ -188,7 +203,7 @@ func c17Exec(raw json.RawMessage, res *RunResult) {
 			// faults planned for the calls of this command
 			plan := sc.Acting.HandlerPlan
 			wantErr := ""
-			for k := 0; k < a.calls[i]; k++ {
+			for k := 0; k < a.planCalls[i]; k++ {
 				idx := a.planAt[i] + k
 				if idx < len(plan) {
 					switch plan[idx] {
@@ -234,6 +249,39 @@ func c17Exec(raw json.RawMessage, res *RunResult) {
 			res.Violate("handler-value-not-copied", "%s", a.copyBroken)
 		}
 		res.ProbeN("handler_calls", len(a.host.Calls))
+	}
+	if sc.Acting.StreamCustom {
+		reRR := regexp.MustCompile(`^RR(\d+)$`)
+		nStream := 0
+		for _, inv := range a.host.Calls {
+			if inv.What != "stream-custom" {
+				continue
+			}
+			nStream++
+			ok := len(inv.Groups) == 2 && reRR.MatchString(inv.Groups[0]) && inv.Groups[0] == "RR"+inv.Groups[1]
+			if ok {
+				found := false
+				for _, c := range sc.Cmds {
+					if strings.Contains(c.Src, inv.Groups[0]) {
+						found = true
+					}
+				}
+				ok = found
+			}
+			if !ok {
+				res.Violate("handler-groups", "the handler of the stream syntax received groups %q: not the matched text and its digits of an operand in the source", inv.Groups)
+				break
+			}
+		}
+		res.ProbeN("stream_handler_calls", nStream)
+		// every RR<n> evaluates to n: with a value handler and no other faults the results are computable
+		for i, c := range sc.Cmds {
+			if want, ok := rrExpected(c.Src); ok && a.out[i].Err == "" && a.out[i].Panic == "" && strings.TrimSpace(a.out[i].Rest) == "" {
+				if a.out[i].Ret != want {
+					res.Violate("stream-custom-wrong-operand", "%q: every RR<n> stands for n, so the result must be %s, got %s (handler log: %s)", c.Src, want, a.out[i].Ret, trunc(a.host.CallLog(), 300))
+				}
+			}
+		}
 	}
 	if sc.StreamFail {
 		for i, c := range sc.Cmds {
@@ -308,4 +356,34 @@ func init() {
 		Stub: []string{"the host: every callback field is implemented by the simulator and logged"},
 		Assumptions: []string{"callback behaviour stays inside the documented contracts (a pass-through HookValueLoadPost calls doCompute)"},
 	})
+}
+
+
+// rrExpected gives the value of the fixed RR templates (each RR<n> stands for n).
+func rrExpected(src string) (string, bool) {
+	switch src {
+	case "RR3 + RR4":
+		return "i7", true
+	case "RR3 * 2 + RR5 + 1":
+		return "i12", true
+	case "func ff(n0) { return RR5 + n0 }; ff(1) + ff(2) + RR1":
+		return "i14", true
+	case "&cv = RR2 + 1; cv + RR7":
+		return "i10", true
+	case "i=0; s=0; while i<3 { s = s + RR6; i=i+1 }; s + RR2":
+		return "i20", true
+	case "RR9":
+		return "i9", true
+	case "1 + RR8":
+		return "i9", true
+	case "RR1 + RR2 + RR3 + RR4":
+		return "i10", true
+	case "x = RR3; y = RR4; x * 10 + y":
+		return "i34", true
+	case "RR12 - RR2 * RR3":
+		return "i6", true
+	case "RR7 ? RR1 : RR2":
+		return "i1", true
+	}
+	return "", false
 }
